@@ -5,6 +5,7 @@ import (
 	"sort"
 	"strconv"
 	"strings"
+	"time"
 
 	. "verifharness/hlib"
 	sl "verifharness/sesslib"
@@ -491,35 +492,41 @@ func (w *world) exec(s script, fin map[string]string) (res execResult) {
 					}
 				}
 			}
-			for got < want {
-				it, ok := c.Next()
-				if !ok || it.Kind == sl.KEOF {
-					closed = closed || (ok && it.Kind == sl.KEOF)
+			// On TCP a frame may stay in the connection's write buffer (rate limiter) until the next
+			// response flushes it, and the consumption goroutine may still be inside its last Consume
+			// when the queue is already empty: repeat drain + barrier until everything expected has
+			// arrived (a few rounds at most on the unchanged code), then one more barrier for extras.
+			for round := 0; round < 200 && !closed; round++ {
+				sl.WaitUntil(func() bool {
+					rt, _, _, _ := src.VerifTables()
+					for _, x := range rt {
+						if x.QueueLen > 0 {
+							return false
+						}
+					}
+					return true
+				})
+				cs := "pb" + strconv.Itoa(round)
+				if c.Send(sl.Req{Method: "OPTIONS", URL: "*", CSeq: cs}.Wire()) != nil {
+					closed = true
 					break
 				}
-				take(it)
-			}
-			// let the consumption drain, then a barrier: frames beyond the expected ones show up before its answer
-			sl.WaitUntil(func() bool {
-				rt, _, _, _ := src.VerifTables()
-				for _, x := range rt {
-					if x.QueueLen > 0 {
-						return false
-					}
-				}
-				return true
-			})
-			if !closed && c.Send(sl.Req{Method: "OPTIONS", URL: "*", CSeq: "pb"}.Wire()) == nil {
 				for {
 					it, ok := c.Next()
 					if !ok || it.Kind == sl.KEOF {
-						closed = closed || (ok && it.Kind == sl.KEOF)
+						closed = true
 						break
 					}
-					if it.Kind == sl.KResp && it.Header["CSeq"] == "pb" {
+					if it.Kind == sl.KResp && it.Header["CSeq"] == cs {
 						break
 					}
 					take(it)
+				}
+				if got >= want && round > 0 {
+					break
+				}
+				if got < want {
+					time.Sleep(time.Duration(round) * 50 * time.Microsecond)
 				}
 			}
 		} else {
